@@ -6,6 +6,18 @@ import numpy as np
 from .. import fmt
 
 PROP = "C07"
+
+_NKS_CALLS = [0]
+
+
+def NKS():
+    """The scheme name 'nks', alternately as the source literal and as a string built at run time (read from a config
+    file, lower-cased user input, ...): equal strings must select the same numbering."""
+    _NKS_CALLS[0] += 1
+    if _NKS_CALLS[0] % 2:
+        return "nks"
+    return "".join(["N", "KS"]).lower() if _NKS_CALLS[0] % 4 == 0 else bytes([110, 107, 115]).decode()
+
 RULE = ("quick: all 256 elementary rules x 8 neighbourhoods x 10 call forms (complete), plus random radii 0..5 with "
         "rule numbers up to 2^(2^(2r+1))-1, conversions with up to 4096-bit numbers and a malformed stream "
         "(rule too large, wrong lengths, non-binary cells with a powers vector). Non-trivial: the answer is a value "
@@ -165,7 +177,7 @@ def _call(c):
         rule, form = c["rule"], c["form"]
         w = len(c["n"])
         if form == "func_nks":
-            return int(cpl.binary_rule(n, rule, scheme="nks"))
+            return int(cpl.binary_rule(n, rule, scheme=NKS()))
         if form == "func_default":
             return int(cpl.binary_rule(n, rule))
         if form == "nks_rule":
@@ -173,23 +185,23 @@ def _call(c):
         if form == "NKSRule":
             return int(cpl.NKSRule(rule)(n, 3, 5))
         if form == "BinaryRule_nks":
-            return int(cpl.BinaryRule(rule, scheme="nks")(n, 3, 5))
+            return int(cpl.BinaryRule(rule, scheme=NKS())(n, 3, 5))
         if form == "BinaryRule_default":
             return int(cpl.BinaryRule(rule)(n, 3, 5))
         if form in ("bits_nks", "bits_default"):
             bits = _bits_of(rule, 2 ** w)
             arr = bits if (rule % 2 == 0) else np.array(bits)     # both list and ndarray forms
-            return int(cpl.binary_rule(n, arr, scheme="nks" if form == "bits_nks" else None))
+            return int(cpl.binary_rule(n, arr, scheme=NKS() if form == "bits_nks" else None))
         if form in ("pow_nks", "pow_default"):
             p = np.array([2 ** (w - 1 - i) for i in range(w)])
             if rule % 2 == 0:
-                return int(cpl.binary_rule(n, rule, scheme="nks" if form == "pow_nks" else None, powers_of_two=p))
-            return int(cpl.BinaryRule(rule, scheme="nks" if form == "pow_nks" else None, powers_of_two=p)(n, 0, 1))
+                return int(cpl.binary_rule(n, rule, scheme=NKS() if form == "pow_nks" else None, powers_of_two=p))
+            return int(cpl.BinaryRule(rule, scheme=NKS() if form == "pow_nks" else None, powers_of_two=p)(n, 0, 1))
     if k == "brx":
         n = np.array(c["n"])
         rule = c["rulebits"] if "rulebits" in c else c["rule"]
         p = None if c.get("pow") is None else np.array(c["pow"])
-        return int(cpl.binary_rule(n, rule, scheme=("nks" if c["scheme"] == "nks" else None), powers_of_two=p))
+        return int(cpl.binary_rule(n, rule, scheme=(NKS() if c["scheme"] == "nks" else None), powers_of_two=p))
     raise ValueError(k)
 
 
